@@ -241,8 +241,11 @@ struct ReluctantRepeatIterator<'a> {
     operation: &'a Operation,
     min: usize,
     max: usize,
-    counter: usize,
-    position: Option<usize>,
+    // one iterator per iteration of the repeated operation entered so far
+    iterators: Vec<Box<dyn Iterator<Item = usize> + 'a>>,
+    // positions[k] is the position reached after k iterations
+    positions: Vec<usize>,
+    started: bool,
 }
 
 impl<'a> ReluctantRepeatIterator<'a> {
@@ -258,8 +261,9 @@ impl<'a> ReluctantRepeatIterator<'a> {
             operation,
             min,
             max,
-            counter: 0,
-            position: Some(position),
+            iterators: Vec::new(),
+            positions: vec![position],
+            started: false,
         }
     }
 }
@@ -267,28 +271,50 @@ impl<'a> ReluctantRepeatIterator<'a> {
 impl Iterator for ReluctantRepeatIterator<'_> {
     type Item = usize;
 
+    // Depth-first, fewest iterations first: a position is offered as soon as
+    // the minimum number of iterations has been reached; only when the caller
+    // comes back for more is another iteration attempted, and when that fails
+    // the earlier iterations are backtracked into.
     fn next(&mut self) -> Option<Self::Item> {
-        loop {
-            if let Some(position) = self.position {
-                let mut it = self.operation.matches_iter(self.matcher, position);
-                if let Some(position) = it.next() {
-                    self.counter += 1;
-                    if self.counter > self.max {
-                        self.position = None;
-                    } else {
-                        self.position = Some(position);
-                    }
-                }
-            } else if self.min == 0 && self.counter == 0 {
-                self.counter += 1;
-            } else {
-                self.position = None;
-            }
-            if self.counter >= self.min || self.position.is_none() {
-                break;
+        if !self.started {
+            self.started = true;
+            if self.min == 0 {
+                return self.positions.last().copied();
             }
         }
-        self.position
+        loop {
+            // try one more iteration from the position reached so far
+            let count = self.iterators.len();
+            if count < self.max {
+                let position = *self.positions.last().unwrap();
+                self.iterators
+                    .push(self.operation.matches_iter(self.matcher, position));
+            } else if self.iterators.is_empty() {
+                return None;
+            }
+            // advance the innermost iteration, backtracking into earlier ones when it is exhausted
+            loop {
+                let depth = self.iterators.len();
+                if depth == 0 {
+                    return None;
+                }
+                self.positions.truncate(depth);
+                let start = self.positions[depth - 1];
+                if let Some(p) = self.iterators.last_mut().unwrap().next() {
+                    if p == start && depth > self.min {
+                        // an iteration that consumed nothing cannot lead anywhere new
+                        continue;
+                    }
+                    self.positions.push(p);
+                    if depth >= self.min {
+                        return Some(p);
+                    }
+                    break;
+                } else {
+                    self.iterators.pop();
+                }
+            }
+        }
     }
 }
 
